@@ -25,7 +25,7 @@ def dispatch (st : DState) (suite op : String) (inp : Json) : DState × Json :=
   match suite with
   | "frame" => (st, Mps.Drv.Frame.handle op inp)
   | "twoparty" => let (h, j) := Mps.Drv.TwoParty.handle st.twoparty op inp; ({ st with twoparty := h }, j)
-  | "sess-keygen" | "sess-sign" | "sess-refresh" | "sess-derive" | "sess-tamper" => (st, Mps.Drv.Sessions.handle op inp)
+  | "sess-keygen" | "sess-sign" | "sess-refresh" | "sess-derive" | "sess-tamper" | "sess-presign-abort" => (st, Mps.Drv.Sessions.handle op inp)
   | "alg" | "algfind" => (st, Mps.Drv.Alg.handle op inp)
   | "pool" => (st, Mps.Drv.Pool.handle op inp)
   | "paillier" => (st, Mps.Drv.Paillier.handle op inp)
@@ -39,7 +39,7 @@ def dispatch (st : DState) (suite op : String) (inp : Json) : DState × Json :=
 
 def statelessSuites : List String :=
   ["zk", "frame", "session", "sig", "nonce", "alg", "algfind", "paillier", "ot", "pool",
-   "sess-keygen", "sess-sign", "sess-refresh", "sess-derive", "sess-tamper"]
+   "sess-keygen", "sess-sign", "sess-refresh", "sess-derive", "sess-tamper", "sess-presign-abort"]
 
 def flush (hout : IO.FS.Stream) (pending : Array (Task String)) : IO Unit := do
   for t in pending do
